@@ -13,7 +13,7 @@
       certificate and loops for ever: the certificate hypothesis is needed; it is evaluated on every real table.
     LR (Tables/LRTerm.v, Tables/LRValidate.v; faithful model Runtime/LRParser.v):
     - lr_terminates: for a table that passes the safety validator for grammar g, with g certified acyclic
-      (acyclic_ok) and the stack-rank certificate (stack_rank_ok: runs of possibly-empty subtrees on the parser stack are bounded; only goto edges on which an empty subtree can really be pushed count), the run with the EXPLICIT fuel lr_fuel_bound
+      (acyclic_ok) and the stack-rank certificate (stack_rank_ok: runs of possibly-empty subtrees on the parser stack are bounded; only goto edges in a checked, closed set E of (state, non-terminal) pairs on which an empty subtree can be pushed count), the run with the EXPLICIT fuel lr_fuel_bound
       never ends OutOfFuel, for every token list; lr_terminates_any_fuel: more fuel gives the same result.
     - lr_terminates_refuted: without the stack-rank certificate the statement is false (a safe but non-LR table
       pushes a nullable non-terminal for ever), so that certificate is a genuine per-table obligation.
@@ -94,29 +94,31 @@ Theorem C19_tree_size_bound :
 Proof. exact tree_size_bound. Qed.
 
 Theorem C19_lr_terminates :
-  forall (g : cfg) (tb : lr_table) (ann : annotation) (nl : list bool) (rk srk toks : list N),
+  forall (g : cfg) (tb : lr_table) (ann : annotation) (nl : list bool) 
+  (rk : list N) (E : list (N * N)) (srk toks : list N),
   lr_safe_check g tb ann = true ->
   acyclic_ok g nl rk = true ->
-  stack_rank_ok g tb nl ann srk = true ->
+  stack_rank_ok g tb nl ann E srk = true ->
   lr_run (lr_fuel_bound g rk srk toks) tb toks <> OutOfFuel.
 Proof. exact lr_terminates. Qed.
 
 Theorem C19_lr_terminates_any_fuel :
   forall (g : cfg) (tb : lr_table) (ann : annotation) (nl : list bool) 
-  (rk srk toks : list N) (fuel : nat),
+  (rk : list N) (E : list (N * N)) (srk toks : list N) (fuel : nat),
   lr_safe_check g tb ann = true ->
   acyclic_ok g nl rk = true ->
-  stack_rank_ok g tb nl ann srk = true ->
+  stack_rank_ok g tb nl ann E srk = true ->
   lr_fuel_bound g rk srk toks <= fuel ->
   lr_run fuel tb toks = lr_run (lr_fuel_bound g rk srk toks) tb toks /\
   lr_run fuel tb toks <> OutOfFuel.
 Proof. exact lr_terminates_any_fuel. Qed.
 
 Theorem C19_lr_terminates_ex :
-  forall (g : cfg) (tb : lr_table) (ann : annotation) (nl : list bool) (rk srk : list N),
+  forall (g : cfg) (tb : lr_table) (ann : annotation) (nl : list bool) 
+  (rk : list N) (E : list (N * N)) (srk : list N),
   lr_safe_check g tb ann = true ->
   acyclic_ok g nl rk = true ->
-  stack_rank_ok g tb nl ann srk = true ->
+  stack_rank_ok g tb nl ann E srk = true ->
   forall toks : list N, exists fuel : nat, lr_run fuel tb toks <> OutOfFuel.
 Proof. exact lr_terminates_ex. Qed.
 
